@@ -110,7 +110,8 @@ def C16(tier):
              gen=dict(count=(2000, 20000), params={"oor_den": "2"})),
         dict(name="random_release", family="sort", trace="Trace_Sort", trace_constants=FIX, profile="release",
              gen=dict(count=(2000, 20000), params={"oor_den": "2"})),
-        # LOOKUP_STAGES (added with the histogram family)
+        hist_stage("lookup_dev", gen=dict(count=(1200, 12000), params={"kinds": "index"})),
+        hist_stage("lookup_release", profile="release", gen=dict(count=(1200, 12000), params={"kinds": "index"})),
     ]
     return dict(models=models, stages=stages, nontrivial=lambda o: True, exhaustive=True,
                 rule="every behaviour of the *_oor_emit models (lengths 0..N, positions 0..n+1 and usize::MAX, request lists mixing "
@@ -303,7 +304,91 @@ def C14(tier):
                 assumptions=MM_ASSUME + QUANT_ASSUME, trusted=["rank projection", "recording closures passed to the folds"])
 
 
-PLANS = {"C05": C05, "C14": C14, "C15": C15, "C02": C02, "C16": C16, "C04": C04, "C01": C01, "C18": C18, "C19": C19, "C03": C03}
+HC = dict(NAxes=1, Dom=1, MaxEdges=1, Depth=1, Emit=False)
+
+
+def hist_stage(name, **kw):
+    d = dict(name=name, family="hist", trace="Trace_Hist", trace_spec="TSpec", trace_constants=HC, profile="dev", chunk=40000)
+    d.update(kw)
+    return d
+
+
+def hist_models(tier, emit=True):
+    inv = ["HistOK", "LookupAgree"]
+    ms = [
+        dict(module="Histogram", name="MC_Hist_1axis",
+             cfg=dict(constants=dict(NAxes=1, Dom=5, MaxEdges=5, Depth=q(tier, 4, 5), Emit=False), invariants=inv, properties=["RejectedNoChange"])),
+        dict(module="Histogram", name="MC_Hist_2axes",
+             cfg=dict(constants=dict(NAxes=2, Dom=3, MaxEdges=3, Depth=q(tier, 2, 3), Emit=False), invariants=inv, properties=["RejectedNoChange"])),
+        dict(module="Histogram", name="MC_Hist_3axes",
+             cfg=dict(constants=dict(NAxes=3, Dom=2, MaxEdges=2, Depth=q(tier, 2, 3), Emit=False), invariants=inv, properties=["RejectedNoChange"],
+                      view="view")),
+    ]
+    if emit:
+        ms += [
+            dict(module="Histogram", name="MC_Hist_emit1", emit=True,
+                 cfg=dict(constants=dict(NAxes=1, Dom=4, MaxEdges=4, Depth=3, Emit=True), invariants=["HistOK", "EmitInv"])),
+            dict(module="Histogram", name="MC_Hist_emit2", emit=True,
+                 cfg=dict(constants=dict(NAxes=2, Dom=3, MaxEdges=2, Depth=2, Emit=True), invariants=["HistOK", "EmitInv"])),
+        ]
+    return ms
+
+
+HIST_ASSUME = ["Ord of the element type is lawful; edge values and observations are small integers mapped monotonically to i32/u8/i64/N64 "
+               "(comparison-only code: behaviour depends only on the order pattern)"]
+
+
+def C11(tier):
+    stages = [
+        hist_stage("replay_model", cases_from=["MC_Hist_emit1", "MC_Hist_emit2"]),
+        hist_stage("random", gen=dict(count=(700, 5000), params={"kinds": "hist/hist_matrix"})),
+    ]
+    return dict(models=hist_models(tier), stages=stages, nontrivial=lambda o: o.get("ev") in ("hist_add", "hist_matrix"), exhaustive=True,
+                rule="every history (sequence of inserts over below/on-edge/between/above probe points) of depth 3 (1 axis, every edge subset of a "
+                     "4-value domain) and depth 2 (2 axes) emitted by TLC, replayed step by step on real Histogram<i32> and Histogram<N64> objects and "
+                     "through the matrix form (row- and column-major); random histories of up to 200 inserts on 1..3 axes incl. zero-bin axes and "
+                     "sliced/transposed observation matrices; each hist_add step is validated against the specification state; non-trivial = an insert "
+                     "or matrix event",
+                assumptions=HIST_ASSUME, trusted=[])
+
+
+def C13(tier):
+    models = [
+        dict(module="Lookup", name="MC_Lookup",
+             cfg=dict(constants=dict(MaxLen=q(tier, 4, 5), Dom=q(tier, 4, 5), Emit=False), invariants=["EdgesOK", "LookupOK", "AccessorsOK"])),
+        dict(module="Lookup", name="MC_Lookup_emit", emit=True,
+             cfg=dict(constants=dict(MaxLen=q(tier, 3, 4), Dom=4, Emit=True), invariants=["EdgesOK", "EmitInv"])),
+    ]
+    stages = [
+        hist_stage("replay_model", cases_from=["MC_Lookup_emit"]),
+        hist_stage("random", gen=dict(count=(1500, 15000), params={"kinds": "edges/grid"})),
+    ]
+    return dict(models=models, stages=stages, nontrivial=lambda o: len(o.get("input", o.get("axes", []))) >= 1, exhaustive=True,
+                rule="every edge sequence (duplicates and every input order included) of length <= N over a D-value domain emitted by TLC, probed "
+                     "below/on/between/above, for i32/u8/N64 from Vec and from (possibly sliced) owned Array1; random larger edge sets and grids of "
+                     "0..3 axes with every index tuple",
+                assumptions=HIST_ASSUME, trusted=[])
+
+
+def C12(tier):
+    models = [
+        dict(module="EquiSpaced", name="MC_EquiSpaced_int",
+             cfg=dict(constants=dict(MaxVal=q(tier, 24, 40), Float=False, P=3, EMin=0, EMax=0, FixF4=True), invariants=["SafetyInv", "DoneOK"], properties=["Terminates"])),
+        dict(module="EquiSpaced", name="MC_EquiSpaced_minifloat",
+             cfg=dict(constants=dict(MaxVal=0, Float=True, P=q(tier, 3, 4), EMin=0, EMax=q(tier, 5, 6), FixF4=True), invariants=["SafetyInv", "DoneOK"], properties=["Terminates"])),
+    ]
+    stages = [
+        hist_stage("strategies", gen=dict(count=(1500, 12000), params={"kinds": "strategy"}), timeout_ms=4000),
+    ]
+    return dict(models=models, stages=stages, nontrivial=lambda o: o.get("n", 0) >= 2, exhaustive=False,
+                rule="random data sets (length 0..300, thorough: to 10^4) over i32/i64/u32 and N64 (quarters, 0.3+0.1k, 1e9+0.001k, 1e16+2k, thirds), "
+                     "constant / heavy ties / regular / narrow / uniform, all five strategies, plus GridBuilder + histogram of the same column; "
+                     "edges judged in doubled-rank space relative to the data; non-trivial = >= 2 observations",
+                assumptions=["bin-count formulas (sqrt, cube root, log2) are not re-derived: the check is on the bins built, whatever their number"],
+                trusted=["doubled-rank projection of the edges relative to the data values"])
+
+
+PLANS = {"C11": C11, "C13": C13, "C12": C12, "C05": C05, "C14": C14, "C15": C15, "C02": C02, "C16": C16, "C04": C04, "C01": C01, "C18": C18, "C19": C19, "C03": C03}
 
 HOOK_COMMITS = ["6df096f"]
 
